@@ -70,6 +70,7 @@ def drive(tier):
                 m = "chain %d %s" % (step, ch)
                 kk, sig = call(SignMessage, key, BitcoinMessage(m))
                 if kk == "exc":
+                    R.add("msg.sign", {"pub": b2l(key.pub), "compressed": comp, "msg": b2l(m.encode("utf8"))}, dict(exc_info(sig), k="exc"), chain=ch)
                     continue
                 kk2, res = call(VerifyMessage, addr, BitcoinMessage(m), sig)
                 R.add("msg.verify", {"addr": text(str(addr)), "msg": b2l(m.encode("utf8")), "sig": b2l(base64.b64decode(sig))},
